@@ -14,11 +14,14 @@ import (
 	"time"
 
 	"github.com/criyle/go-sandbox/container"
+	"github.com/criyle/go-sandbox/pkg/mount"
+	"github.com/criyle/go-sandbox/pkg/rlimit"
 	"github.com/criyle/go-sandbox/pkg/seccomp"
 	"github.com/criyle/go-sandbox/pkg/seccomp/libseccomp"
 	"github.com/criyle/go-sandbox/ptracer"
 	"github.com/criyle/go-sandbox/runner"
 	"github.com/criyle/go-sandbox/runner/ptrace"
+	"github.com/criyle/go-sandbox/runner/unshare"
 
 	"verif/internal/probe"
 	"verif/internal/vh"
@@ -258,4 +261,240 @@ func runTraced(o tracedOpts) (*tracedResult, error) {
 	pr.Close()
 	tr.Report = probe.Parse(buf)
 	return tr, nil
+}
+
+// ---- namespace (unshare) run ------------------------------------------------------------------
+
+type sandboxOpts struct {
+	Script   *probe.Script
+	Filter   seccomp.Filter
+	Limit    runner.Limit
+	RLimits  []rlimit.RLimit
+	Ctx      context.Context
+	SyncFunc func(pid int) error
+	Extra    []*os.File
+	Timeout  time.Duration
+	Tag      string
+	// unshare only
+	Root                 string
+	Mounts               []mount.SyscallParams
+	WorkDir              string
+	HostName, DomainName string
+	// container only
+	Env           container.Environment
+	SyncAfterExec bool
+}
+
+type reportPipe struct {
+	pr, pw *os.File
+	buf    []byte
+	done   chan struct{}
+}
+
+func newReportPipe() (*reportPipe, error) {
+	pr, pw, err := os.Pipe()
+	if err != nil {
+		return nil, vh.Infraf("pipe: %v", err)
+	}
+	rp := &reportPipe{pr: pr, pw: pw, done: make(chan struct{})}
+	go func() {
+		rp.buf, _ = io.ReadAll(pr)
+		close(rp.done)
+	}()
+	return rp, nil
+}
+
+// finish closes the write end and collects what the program(s) wrote.
+func (rp *reportPipe) finish() *probe.Report {
+	rp.pw.Close()
+	select {
+	case <-rp.done:
+	case <-time.After(5 * time.Second):
+		rp.pr.Close()
+		<-rp.done
+	}
+	rp.pr.Close()
+	return probe.Parse(rp.buf)
+}
+
+var (
+	probeFileOnce sync.Once
+	probeFile     *os.File
+)
+
+// probeExecFd returns a long-lived read-only descriptor of bin/vprobe for ExecFile launches.
+func probeExecFd() (uintptr, error) {
+	var err error
+	probeFileOnce.Do(func() { probeFile, err = os.Open(probe.Path()) })
+	if probeFile == nil {
+		return 0, vh.Infraf("open vprobe: %v", err)
+	}
+	return probeFile.Fd(), nil
+}
+
+func runWithTimeout(f func() runner.Result, to time.Duration) (runner.Result, bool, time.Duration) {
+	if to == 0 {
+		to = 20 * time.Second
+	}
+	ch := make(chan runner.Result, 1)
+	start := time.Now()
+	go func() { ch <- f() }()
+	select {
+	case r := <-ch:
+		return r, false, time.Since(start)
+	case <-time.After(to):
+		return runner.Result{}, true, time.Since(start)
+	}
+}
+
+// runUnshare runs a vprobe script under the real unshare.Runner (probe started through ExecFile).
+func runUnshare(o sandboxOpts) (*tracedResult, error) {
+	rp, err := newReportPipe()
+	if err != nil {
+		return nil, err
+	}
+	devnull, err := os.OpenFile("/dev/null", os.O_RDWR, 0)
+	if err != nil {
+		rp.finish()
+		return nil, vh.Infraf("devnull: %v", err)
+	}
+	defer devnull.Close()
+	efd, err := probeExecFd()
+	if err != nil {
+		rp.finish()
+		return nil, err
+	}
+	tag := o.Tag
+	if tag == "" {
+		tag = newTag()
+	}
+	files := []uintptr{devnull.Fd(), devnull.Fd(), devnull.Fd(), rp.pw.Fd()}
+	for _, f := range o.Extra {
+		files = append(files, f.Fd())
+	}
+	lim := o.Limit
+	if lim.TimeLimit == 0 {
+		lim.TimeLimit = 30 * time.Second
+	}
+	if lim.MemoryLimit == 0 {
+		lim.MemoryLimit = 1 << 30
+	}
+	if o.Filter == nil {
+		// unshare.Runner (like ptrace.Runner) dereferences its filter unconditionally: a filter is a precondition
+		o.Filter, err = buildFilter(nil, nil, libseccomp.ActionAllow)
+		if err != nil {
+			rp.finish()
+			return nil, vh.Infraf("filter: %v", err)
+		}
+	}
+	r := &unshare.Runner{
+		Args: o.Script.Argv(tag, 3), Env: []string{"VP=1"}, ExecFile: efd, WorkDir: o.WorkDir, Files: files, RLimits: o.RLimits, Limit: lim,
+		Seccomp: o.Filter, Root: o.Root, Mounts: o.Mounts, HostName: o.HostName, DomainName: o.DomainName, SyncFunc: o.SyncFunc,
+	}
+	ctx := o.Ctx
+	if ctx == nil {
+		ctx = context.Background()
+	}
+	tr := &tracedResult{Tag: tag}
+	tr.Result, tr.Hung, tr.Elapsed = runWithTimeout(func() runner.Result { return r.Run(ctx) }, o.Timeout)
+	if tr.Hung {
+		rp.pw.Close()
+		rp.pr.Close()
+		return tr, nil
+	}
+	tr.Report = rp.finish()
+	return tr, nil
+}
+
+// runContainer runs a vprobe script with Environment.Execve (probe passed as ExecFile).
+func runContainer(o sandboxOpts) (*tracedResult, error) {
+	rp, err := newReportPipe()
+	if err != nil {
+		return nil, err
+	}
+	devnull, err := os.OpenFile("/dev/null", os.O_RDWR, 0)
+	if err != nil {
+		rp.finish()
+		return nil, vh.Infraf("devnull: %v", err)
+	}
+	defer devnull.Close()
+	efd, err := probeExecFd()
+	if err != nil {
+		rp.finish()
+		return nil, err
+	}
+	tag := o.Tag
+	if tag == "" {
+		tag = newTag()
+	}
+	files := []uintptr{devnull.Fd(), devnull.Fd(), devnull.Fd(), rp.pw.Fd()}
+	for _, f := range o.Extra {
+		files = append(files, f.Fd())
+	}
+	argv := o.Script.Argv(tag, 3)
+	argv[0] = "/vprobe" // not looked up in PATH (the executable is ExecFile); a bare name would be
+	p := container.ExecveParam{Args: argv, Env: []string{"VP=1"}, Files: files, ExecFile: efd, RLimits: o.RLimits, Seccomp: o.Filter,
+		SyncFunc: o.SyncFunc, SyncAfterExec: o.SyncAfterExec}
+	ctx := o.Ctx
+	if ctx == nil {
+		ctx = context.Background()
+	}
+	tr := &tracedResult{Tag: tag}
+	tr.Result, tr.Hung, tr.Elapsed = runWithTimeout(func() runner.Result { return o.Env.Execve(ctx, p) }, o.Timeout)
+	if tr.Hung {
+		rp.pw.Close()
+		rp.pr.Close()
+		return tr, nil
+	}
+	tr.Report = rp.finish()
+	return tr, nil
+}
+
+// containerStderr collects what container inits print (container_exit lines) for diagnostics.
+type lockedBuf struct {
+	mu sync.Mutex
+	b  []byte
+}
+
+func (l *lockedBuf) Write(p []byte) (int, error) {
+	l.mu.Lock()
+	l.b = append(l.b, p...)
+	if len(l.b) > 1<<16 {
+		l.b = l.b[len(l.b)-1<<15:]
+	}
+	l.mu.Unlock()
+	return len(p), nil
+}
+func (l *lockedBuf) String() string { l.mu.Lock(); defer l.mu.Unlock(); return string(l.b) }
+
+// buildContainer builds a default environment under a fresh root directory. stderr of the init goes to a pipe-backed
+// *os.File so that Destroy leaves no descriptor to the garbage collector.
+func buildContainer(b *container.Builder) (container.Environment, string, error) {
+	root, err := vh.ScratchDir("croot")
+	if err != nil {
+		return nil, "", vh.Infraf("%v", err)
+	}
+	if b == nil {
+		b = &container.Builder{}
+	}
+	b.Root = root
+	if b.Stderr == nil {
+		b.Stderr = devNullFile()
+	}
+	env, err := b.Build()
+	if err != nil {
+		os.RemoveAll(root)
+		return nil, "", err
+	}
+	return env, root, nil
+}
+
+var (
+	devNullOnce sync.Once
+	devNullF    *os.File
+)
+
+func devNullFile() *os.File {
+	devNullOnce.Do(func() { devNullF, _ = os.OpenFile("/dev/null", os.O_RDWR, 0) })
+	return devNullF
 }
